@@ -273,13 +273,14 @@ func (r *router) AttachClient(client wamp.Peer, transportDetails wamp.Dict) erro
 
 	sess.Details = sessDetails
 
-	if err := realm.handleSession(sess); err != nil {
+	// The WELCOME is sent by handleSession, after the session has joined the
+	// realm and before its message handler is started.
+	if err := realm.handleSession(sess, welcome); err != nil {
 		// Any error returned here is a shutdown error.
 		sendAbort(wamp.ErrSystemShutdown, nil)
 		return err
 	}
 
-	client.Send() <- welcome // Blocking OK; this is session goroutine.
 	if r.debug {
 		r.log.Println("Finished attaching session:", sid)
 	}
